@@ -58,8 +58,27 @@ def main():
              'log record carrying a traceback, no exception other than RPCError leaving an XML-RPC method, no exception '
              'escaping a proxy thread, no un-marshallable XML-RPC result',
         assumptions=['critical log records without a traceback (e.g. OffState after 15 s) are not internal errors'])
+    # part 2: hostile product (reachable instance states x next events, RPC matrix, heterogeneous configurations)
+    from . import c16b
+    counts, viols = c16b.run_all(int(os.environ.get('VERIF_WORKERS', '16')))
+    seen = set()
+    for v, case in viols:
+        if v['signature'] in seen:
+            continue
+        seen.add(v['signature'])
+        out.report(v, {'driver': 'C16-hostile', 'config': {}, 'events': [case]})
+    out.coverage['hostile_product'] = counts
+    out.coverage['rule'] += (' | hostile product: every state of scripted real histories (cold start, process start, crash, '
+                             'detection, restart; auto_fence off / on) x forged publications / notifications from each peer and '
+                             'Supervisor-side events (processes / groups added, removed, disabled, unknown processes) followed by '
+                             'a local tick that must still be processed and published; every XML-RPC of the C17 matrix plus '
+                             'hostile parameters in every Supvisors state; SINGLE_NODE / SINGLE_INSTANCE starts with instances '
+                             'of one node knowing different programs')
     return out.finish(exhaustive=complete)
 
 
 def replay(payload):
+    if payload.get('driver') == 'C16-hostile':
+        print(payload['events'])
+        return 0
     return replay_e1(payload, {'cluster': DRIVER})
